@@ -155,6 +155,9 @@ def run_check(pid, tier, jobs):
         "exceptions_sample": res.exceptions[:2],
         "cpu_s_in_workers": round(res.wall, 1),
         "explanation": getattr(chk, "EXPLANATION", ""),
+        "beyond_the_small_scope": "in addition to the exploration described under 'rule', the scale worlds / large cases of hmsmc/scale.py and DESIGN.md 11.8 "
+        "(populations of 100-150, dimension 12-30, dozens to hundreds of demes, tens of thousands of evaluations) are run ONCE each without deviations; "
+        "'exhaustive' refers to the bounded exploration, not to them",
     }
     coverage.update(extra)
     rc = conclude(pid, tier, seed, coverage, chk.ASSUMPTIONS, res.violations, res.viol_counts, wall)
